@@ -168,27 +168,10 @@ Definition wrong_read_key_reveals_nothing_statement : Prop :=
 (** * D. C08 over histories: the cascade deletes exactly the closure, in
       every reachable state of either state kind *)
 
-(** the id that the indexed cascade OF THE MODEL never removes as a dependent
-    (State.delete_dependencies passes it where the linear code passes the id
-    being removed; the Go code has no such id) *)
-Definition sentinel : string := String (Ascii.ascii_of_nat 0) "never".
-
-(** the artefact of the model, isolated: the id is not that sentinel *)
-Definition not_sentinel (j : string) : Prop := j <> sentinel.
-
-(** no STORED id is the sentinel (artefact of the model; nothing is asked of
-    the id that a removal names) *)
-Definition ids_not_sentinel (s : state) : Prop :=
-  forall j, alookup j (st_facts s) <> None -> not_sentinel j.
-
-(** The genuine restriction is D14: an id that looks like a pattern variable
-    makes the cascade's search match every fact that has a deleteWith.  It is
-    [is_var id = false] for the id removed and [CascadeSpec.ids_not_varlike s]
-    for the stored ids.  [id_ok] is the conjunction, for stored ids. *)
-Definition id_ok (j : string) : Prop := is_var j = false /\ not_sentinel j.
-Definition id_okb (j : string) : bool := negb (is_var j) && negb (String.eqb j sentinel).
-
-Definition ids_ok (s : state) : Prop := forall j, alookup j (st_facts s) <> None -> id_ok j.
+(** (Before the repair of D14 the statements of this part asked that no id,
+    stored or removed, looks like a pattern variable; the model also had a
+    sentinel id of its own.  Both are gone: deleteDependencies checks the
+    candidates of its search literally, and the loop's skip is an option.) *)
 
 (** what remains of an id -> fact map after the removal of [id]: the map
     minus the deleteWith closure of [id], computed by CorrLoc.clo_iter (the
@@ -202,15 +185,14 @@ Definition clo_iter_is_closure_statement : Prop :=
     (In j (clo_iter (S (length (st_facts s))) (st_facts s) [id]) <-> Clo s id j).
 
 (** D1.  In every state that a history of state operations reaches (either
-    kind, with or without the cron hooks, no storage failure), a removal that succeeds leaves, in
+    kind, with or without the cron hooks, no storage failure), a removal of
+    ANY id (variable-looking ids included: D14 is repaired) that succeeds leaves, in
     memory AND in the storage, exactly the facts of before minus the
     deleteWith closure of the id; [had] tells whether the id was there. *)
 Definition cascade_closure_history_statement : Prop :=
   forall k hooks ops id now s' had,
     let s := reachable k hooks None ops in
     StateSpec.no_expired s now ->
-    ids_not_varlike s -> is_var id = false ->      (* D14 *)
-    ids_not_sentinel s ->                          (* artefact of the model *)
     st_Rem s id now = (s', Ok had) ->
     had = (match alookup id (st_facts s) with Some _ => true | None => false end) /\
     st_facts s' = minus_closure (st_facts s) id /\
@@ -223,8 +205,6 @@ Definition nothing_else_deleted_history_statement : Prop :=
   forall k hooks ops id now s' had,
     let s := reachable k hooks None ops in
     StateSpec.no_expired s now ->
-    ids_not_varlike s -> is_var id = false ->      (* D14 *)
-    ids_not_sentinel s ->                          (* artefact of the model *)
     st_Rem s id now = (s', Ok had) ->
     forall j, ~ Clo s id j ->
       alookup j (st_facts s') = alookup j (st_facts s) /\ alookup j (st_store s') = alookup j (st_store s).
@@ -275,16 +255,15 @@ Definition spec_step (F : list (string * json)) (ob : (sop * Z) * bool) : list (
 
 Definition spec_facts (tr : list ((sop * Z) * bool)) : list (string * json) := fold_left spec_step tr [].
 
-(** Histories without expiry and with ids that do not look like variables
-    (adds that a hook rejects are allowed: they change nothing). *)
+(** Histories without expiry: any ids, stored or removed (adds that a hook
+    rejects are allowed: they change nothing). *)
 Definition op_plain (o : sop * Z) : bool :=
   match o with
   | (SAdd g x fr aux, now) =>
       match prepare_fact g x now fr aux with
-      | Ok (id, f) => id_okb id && (fact_expires f =? 0)
+      | Ok (id, f) => fact_expires f =? 0
       | _ => true
       end
-  | (SRem id, _) => negb (is_var id)
   | _ => true
   end.
 
@@ -388,13 +367,13 @@ Definition nokey (F : list (string * json)) : list (string * json) :=
 
 (** A healthy state without expiry: no storage failure pending, sorted maps,
     the storage mirrors the memory, nothing noted for purge, no stored fact
-    ever expires, no stored id looks like a variable, and (indexed state) the
+    ever expires, and (indexed state) the
     term index covers the facts and its id lists are sorted.  Every state that
     a history of [op_plain] operations reaches from the empty state is
     healthy ([healthy_reachable_statement]). *)
 Definition healthy (hooks : bool) (s : state) : Prop :=
   st_fail s = None /\ st_hooks s = hooks /\ st_wf s /\ st_store s = st_facts s /\ st_pending s = [] /\
-  (forall id f, alookup id (st_facts s) = Some f -> fact_expires f = 0 /\ id_ok id) /\
+  (forall id f, alookup id (st_facts s) = Some f -> fact_expires f = 0) /\
   (st_kind s = Indexed -> Idx_sup s /\ forall t, sorted_keys (ti_ids (st_tindex s) t) = true).
 
 Definition healthy_reachable_statement : Prop :=
